@@ -217,7 +217,7 @@ def run_pure(case: dict[str, Any]) -> dict[str, Any]:
     import kopf
     from kopf._cogs.structs import bodies, diffs, patches
     from kv.fakekube import merge_patch
-    from kv.refmodels import json_eq_mod_null, _strip_nulls
+    from kv.refmodels import json_eq_mod_null, _strip_nulls, _typed
 
     rng = random.Random(case['seed'])
     viol: list[dict[str, Any]] = []
@@ -254,6 +254,10 @@ def run_pure(case: dict[str, Any]) -> dict[str, Any]:
             mech = 'bool-int-conflation' if _strip_nulls(a) == _strip_nulls(b) else 'diff-incomplete'
             if mech != 'bool-int-conflation' or not any(v['mech'] == mech and v['witness'].get('a') == a for v in viol[-1:]):
                 viol.append({'mech': mech, 'msg': 'diff is empty although the values differ', 'witness': {'a': a, 'b': b}})
+        if not d and json_eq_mod_null(a, b) and _typed(a) != _typed(b):
+            # equal up to null-valued keys only: kopf's diff format uses None for 'absent', so {'k': null} -> {} (or back) is no change for it
+            cov['null_vs_absent_pairs'] = cov.get('null_vs_absent_pairs', 0) + 1
+            viol.append({'mech': 'null-vs-absent-conflation', 'msg': 'diff is empty although one side has a null-valued key that the other side lacks', 'witness': {'a': a, 'b': b}})
         # O2: narrowing to fields
         fields = set()
         for op, path, old, new in d:
